@@ -102,7 +102,7 @@ def gen_op(rng, net, spec, tiny: bool = False) -> dict:  # noqa: ANN001
     if r < 0.91:
         return {"op": "clear"}
     pp = rng.sample(pnames, rng.randint(1, min(3, len(pnames))))  # a protocol names the same parameters in every step
-    steps = [(dy(rng, 0.25, 1.5), {p: dy(rng, 0.25, 2.5) for p in pp}) for _ in range(rng.randint(1, 3))]
+    steps = [(dy(rng, 0.25, 1.5), {p: dy(rng, 0.25, 2.5) for p in rng.sample(pp, len(pp))}) for _ in range(rng.randint(1, 3))]
     if r < 0.96:
         return {"op": "protocol", "steps": steps, "n": rng.randint(1, 6)}
     total = sum(d for d, _ in steps)
